@@ -7,6 +7,13 @@ package main
 // PopIterate with a table-driven digester; after every step the answer and (for mutations) the
 // flattened structural dump from atree.VerifMapElements are written for the engine
 // chk_mapelems (coq/theories/MapTrace.v), and model-independent oracles are evaluated.
+//
+// The digester of a history has 1..8 levels (8 = the library's maxDigestLevel).  Commits, reopening
+// from the ledger bytes (comparison with the shadow dictionary and with the last structural dump,
+// optionally continuing the history on the reopened map) are interleaved at random points and right
+// after group transitions; they are no trace steps (the model's state does not depend on them).
+// "wide" histories put more keys with pairwise distinct level-1 digests under one level-0 digest
+// than the collision limit admits, with the limit left at the library's default.
 
 import (
 	"errors"
@@ -22,6 +29,28 @@ import (
 func init() { register("mapelems", cmdMapElems) }
 
 const mpeLevels = 4
+
+// mpeMaxLevels is the largest number of digest levels a caller-supplied digester may have (maxDigestLevel).
+const mpeMaxLevels = 8
+
+// mpeDocumentedDefaultLimit is the documented default of maxCollisionLimitPerDigest (property C12, errors.go).
+const mpeDocumentedDefaultLimit = 255
+
+// mpeLibDefaultLimit is the value of maxCollisionLimitPerDigest the library starts with; it is read
+// once per process (before anything configures the limit) and is what "not configured" restores.
+var (
+	mpeLibDefaultLimit     uint32
+	mpeLibDefaultLimitRead bool
+)
+
+func mpeReadLibDefaultLimit() uint32 {
+	if !mpeLibDefaultLimitRead {
+		mpeLibDefaultLimit = atree.VerifSetMaxCollisionLimitPerDigest(mpeDocumentedDefaultLimit)
+		atree.VerifSetMaxCollisionLimitPerDigest(mpeLibDefaultLimit)
+		mpeLibDefaultLimitRead = true
+	}
+	return mpeLibDefaultLimit
+}
 
 // ---------- table-driven digester ----------
 
@@ -68,6 +97,53 @@ func (g *mpeDigester) Digest(level uint) (atree.Digest, error) {
 func (g *mpeDigester) Reset()       {}
 func (g *mpeDigester) Levels() uint { return mpeLevels }
 
+// ---------- table-driven digester with a configurable number of levels (1..8) ----------
+
+type mpeVBuilder struct {
+	table  map[uint64][mpeMaxLevels]uint64
+	levels uint
+}
+
+type mpeVDigester struct {
+	d      [mpeMaxLevels]uint64
+	levels uint
+}
+
+func (b *mpeVBuilder) SetSeed(_ uint64, _ uint64) {}
+
+func (b *mpeVBuilder) Digest(_ atree.HashInputProvider, v atree.Value) (atree.Digester, error) {
+	id, _, ok := mpeIdent(v)
+	if !ok {
+		return nil, fmt.Errorf("mapelems digester: value %T has no key identity", v)
+	}
+	d, ok := b.table[id]
+	if !ok {
+		return nil, fmt.Errorf("mapelems digester: key identity %d has no digests", id)
+	}
+	return &mpeVDigester{d: d, levels: b.levels}, nil
+}
+
+func (g *mpeVDigester) DigestPrefix(level uint) ([]atree.Digest, error) {
+	if level > g.levels {
+		return nil, atree.NewHashLevelErrorf("cannot get digest < level %d: level must be [0, %d]", level, g.levels)
+	}
+	var p []atree.Digest
+	for i := uint(0); i < level; i++ {
+		p = append(p, atree.Digest(g.d[i]))
+	}
+	return p, nil
+}
+
+func (g *mpeVDigester) Digest(level uint) (atree.Digest, error) {
+	if level >= g.levels {
+		return 0, atree.NewHashLevelErrorf("cannot get digest at level %d: level must be [0, %d)", level, g.levels)
+	}
+	return atree.Digest(g.d[level]), nil
+}
+
+func (g *mpeVDigester) Reset()       {}
+func (g *mpeVDigester) Levels() uint { return g.levels }
+
 // mpeIdent returns the numeric identity and encoded size of a key/value (as Value or Storable):
 // Uint64Value -> the number; StringValue -> the decimal prefix before '|'.
 func mpeIdent(x any) (id uint64, size uint64, ok bool) {
@@ -97,8 +173,8 @@ type mpeKey struct {
 	id    uint64
 	val   atree.Value
 	ksz   uint64
-	d     [mpeLevels]uint64
-	probe bool // never inserted
+	d     [mpeMaxLevels]uint64 // levels >= the history's number of levels stay 0 and are never read
+	probe bool                 // never inserted
 }
 
 type mpeEntry struct {
@@ -113,6 +189,7 @@ type mpeDumpInfo struct {
 	kinds  map[uint64]int          // level-0 digest -> element kind
 	nSL    int                     // number of singleElements groups
 	depth  int                     // deepest group nesting (0 = no group)
+	groups int                     // number of collision groups of any kind
 	newExt int                     // external groups seen for the first time
 	count  int                     // number of key/value pairs
 }
@@ -129,6 +206,10 @@ type mpeRun struct {
 	maxInline uint64
 	maxKey    uint64
 	limit     uint64
+	defLimit  bool // the collision limit is not configured: the library's default is in force
+	levels    int  // digest levels of this history's digester (1..8)
+	wide      bool // more distinct level-1 digests under one level-0 digest than the limit admits
+	durq      int  // chance (percent) of a commit after a mutation; 0 = the history never commits
 	mode      string
 	profile   int // 0 small, 1 mixed, 2 large values
 
@@ -137,7 +218,7 @@ type mpeRun struct {
 	addr atree.Address
 	ti   atree.TypeInfo
 	m    *atree.OrderedMap
-	b    *mpeBuilder
+	b    *mpeVBuilder
 
 	pool    []*mpeKey
 	probes  []*mpeKey
@@ -147,9 +228,13 @@ type mpeRun struct {
 	seq     uint64
 	vctr    uint64
 
-	extIdx   map[atree.SlabID]uint64
-	lastEnc  []uint64
-	lastInfo *mpeDumpInfo
+	extIdx     map[atree.SlabID]uint64
+	lastEnc    []uint64
+	lastInfo   *mpeDumpInfo
+	transition bool // the last mutation changed the group structure
+	roExt      bool // dumping a reopened map: unknown external slabs are not registered
+
+	nCommit, nReopen, nAdopt int
 
 	sawInline, sawExt, sawCollIn, sawCollExt, sawList, sawRefused, sawDepth2, sawMulti bool
 	dead                                                                               bool
@@ -225,57 +310,94 @@ func mpeAlphabet(rng *Rng, n int) []uint64 {
 	return out
 }
 
-// genDigests fills k.d for all pool keys according to the digest mode.
+// genDigests fills k.d[0..levels-1] for all pool keys according to the digest mode.
 func (r *mpeRun) genDigests() {
 	rng := r.rng
+	L := r.levels
 	n := len(r.pool)
-	var alpha [mpeLevels][]uint64
-	distinct := [mpeLevels]bool{}
-	switch m := rng.Pick(9, 7, 7, 7, 7, 19, 12, 32); m {
+	alpha := make([][]uint64, L)
+	distinct := make([]bool, L)
+	deep := false
+	switch m := rng.Pick(9, 28, 14, 16, 8, 25); m {
 	case 0:
 		r.mode = "list"
-		for l := 0; l < mpeLevels; l++ {
+		for l := 0; l < L; l++ {
 			alpha[l] = mpeAlphabet(rng, 1)
 		}
-	case 1, 2, 3, 4:
-		j := m - 1
+	case 1:
+		j := rng.Intn(L) // all keys collide on levels 0..j (j = L-1: on every level)
 		r.mode = fmt.Sprintf("upto%d", j)
-		for l := 0; l < mpeLevels; l++ {
+		for l := 0; l < L; l++ {
 			if l <= j {
 				alpha[l] = mpeAlphabet(rng, 1)
 			} else {
 				distinct[l] = true
 			}
 		}
-	case 5:
+	case 2:
+		r.mode = "deep"
+		deep = true
+	case 3:
 		r.mode = "small"
-		for l := 0; l < mpeLevels; l++ {
+		for l := 0; l < L; l++ {
 			alpha[l] = mpeAlphabet(rng, 1+rng.Intn(4))
 		}
-	case 6:
+	case 4:
 		r.mode = "nocoll"
 		distinct[0] = true
-		for l := 1; l < mpeLevels; l++ {
+		for l := 1; l < L; l++ {
 			alpha[l] = mpeAlphabet(rng, 1+rng.Intn(3))
 		}
 	default:
 		r.mode = "mix"
 		alpha[0] = mpeAlphabet(rng, 2+rng.Intn(7))
-		alpha[1] = mpeAlphabet(rng, 1+rng.Intn(3))
-		alpha[2] = mpeAlphabet(rng, 1+rng.Intn(3))
-		if rng.Chance(40) {
-			distinct[3] = true
-		} else {
-			alpha[3] = mpeAlphabet(rng, 1+rng.Intn(3))
+		for l := 1; l < L; l++ {
+			alpha[l] = mpeAlphabet(rng, 1+rng.Intn(3))
+		}
+		if L >= 2 && rng.Chance(40) {
+			alpha[L-1] = nil
+			distinct[L-1] = true
 		}
 	}
-	for l := 0; l < mpeLevels; l++ {
+	if deep {
+		// a few classes of keys colliding on EVERY level; a key either stays in its class (full-depth
+		// collision: the insertion-ordered list below the last level) or leaves it at a random level
+		nc := 1 + rng.Intn(3)
+		classes := make([][mpeMaxLevels]uint64, nc)
+		for c := range classes {
+			for l := 0; l < L; l++ {
+				classes[c][l] = mpeAlphabet(rng, 1)[0]
+			}
+			if c > 0 && rng.Chance(50) { // classes sharing a prefix: nested groups above the lists
+				j := 1 + rng.Intn(L)
+				for l := 0; l < j && l < L; l++ {
+					classes[c][l] = classes[0][l]
+				}
+			}
+		}
+		for _, k := range r.pool {
+			k.d = classes[rng.Intn(nc)]
+			if rng.Chance(50) {
+				j := rng.Intn(L)
+				for l := j; l < L; l++ {
+					if l == j || rng.Chance(70) {
+						k.d[l] = rng.U64()
+						if rng.Chance(30) {
+							k.d[l] = mpeSpecial[rng.Intn(len(mpeSpecial))]
+						}
+					}
+				}
+			}
+		}
+		return
+	}
+	for l := 0; l < L; l++ {
 		if distinct[l] {
 			alpha[l] = mpeAlphabet(rng, n)
 		}
 	}
 	for i, k := range r.pool {
-		for l := 0; l < mpeLevels; l++ {
+		for l := 0; l < L; l++ {
 			if distinct[l] {
 				k.d[l] = alpha[l][i]
 			} else {
@@ -293,9 +415,45 @@ func (r *mpeRun) genDigests() {
 	}
 }
 
+// genWideDigests: one hot level-0 digest shared by (almost) all keys; level-1 digests pairwise distinct
+// except for a few keys that repeat another key's (those do not add to the fan-out the limit counts).
+func (r *mpeRun) genWideDigests() {
+	rng := r.rng
+	L := r.levels
+	n := len(r.pool)
+	r.mode = "wide"
+	hot := mpeAlphabet(rng, 1)[0]
+	lvl := make([][]uint64, L)
+	for l := 1; l < L; l++ {
+		lvl[l] = mtrDistinct(rng, n, true)
+	}
+	core := int(r.limit) + 4 // the first limit+4 keys: hot level-0 digest, level-1 digests of their own
+	for i, k := range r.pool {
+		k.d[0] = hot
+		for l := 1; l < L; l++ {
+			k.d[l] = lvl[l][i]
+		}
+		if i >= core {
+			switch rng.Pick(40, 30, 30) {
+			case 1:
+				k.d[0] = rng.U64() // a bystander under its own level-0 digest
+			case 2:
+				if L >= 2 { // repeats a level-1 digest: no additional fan-out
+					k.d[1] = r.pool[rng.Intn(core)].d[1]
+				}
+			}
+		}
+	}
+	for i := len(r.pool) - 1; i > 0; i-- {
+		j := rng.Intn(i + 1)
+		r.pool[i], r.pool[j] = r.pool[j], r.pool[i]
+	}
+}
+
 // genProbes creates keys that are never inserted, with digests placed relative to the pool's.
 func (r *mpeRun) genProbes(used map[uint64]bool) {
 	rng := r.rng
+	L := r.levels
 	d0s := []uint64{}
 	seen := map[uint64]bool{}
 	for _, k := range r.pool {
@@ -305,10 +463,14 @@ func (r *mpeRun) genProbes(used map[uint64]bool) {
 		}
 	}
 	sort.Slice(d0s, func(i, j int) bool { return d0s[i] < d0s[j] })
-	rnd := func() [mpeLevels]uint64 {
-		return [mpeLevels]uint64{rng.U64(), rng.U64(), rng.U64(), rng.U64()}
+	rnd := func() [mpeMaxLevels]uint64 {
+		var d [mpeMaxLevels]uint64
+		for l := 0; l < L; l++ {
+			d[l] = rng.U64()
+		}
+		return d
 	}
-	var ds [][mpeLevels]uint64
+	var ds [][mpeMaxLevels]uint64
 	if d0s[0] > 0 { // below all
 		d := rnd()
 		d[0] = d0s[0] - 1
@@ -336,10 +498,13 @@ func (r *mpeRun) genProbes(used map[uint64]bool) {
 			ds = append(ds, d)
 		}
 	}
-	for j := 1; j < mpeLevels; j++ { // equal up to level j-1, different from there
+	for j := 1; j < L; j++ { // equal up to level j-1, different from there
+		if L > 4 && j > 2 && j < L-1 && !rng.Chance(50) {
+			continue
+		}
 		src := r.pool[rng.Intn(len(r.pool))]
 		d := src.d
-		for l := j; l < mpeLevels; l++ {
+		for l := j; l < L; l++ {
 			if l == j || rng.Bool() {
 				nv := rng.U64()
 				if rng.Bool() {
@@ -519,8 +684,8 @@ func (r *mpeRun) encElems(g *atree.VerifMapElems, level int, out *[]uint64, info
 		if len(g.Hkeys) != len(g.Elems) {
 			r.viol("C12: hkeys and elements differ in length", "")
 		}
-		if level >= mpeLevels {
-			r.viol("C12: hkeyElements below the last digest level", fmt.Sprintf("level %d", level))
+		if level >= r.levels {
+			r.viol("C12: hkeyElements below the last digest level", fmt.Sprintf("level %d of %d", level, r.levels))
 		}
 		for i, h := range g.Hkeys {
 			*out = append(*out, uint64(h))
@@ -538,8 +703,8 @@ func (r *mpeRun) encElems(g *atree.VerifMapElems, level int, out *[]uint64, info
 	}
 	*out = append(*out, 1, uint64(g.Level), uint64(len(g.Elems)), uint64(g.Size))
 	info.nSL++
-	if level != mpeLevels {
-		r.viol("C12: singleElements group above the last digest level", fmt.Sprintf("level %d", level))
+	if level != r.levels {
+		r.viol("C12: singleElements group above the last digest level", fmt.Sprintf("level %d of %d", level, r.levels))
 	}
 	for _, e := range g.Elems {
 		if e.Kind != 0 {
@@ -576,7 +741,10 @@ func (r *mpeRun) encElem(e *atree.VerifMapElem, level int, out *[]uint64, info *
 		}
 	case 2:
 		idx, ok := r.extIdx[e.SlabID]
-		if !ok {
+		if !ok && r.roExt {
+			r.viol("C12: reopened map refers to an external group slab the map never had", e.SlabID.String())
+			idx = ^uint64(0)
+		} else if !ok {
 			idx = uint64(len(r.extIdx))
 			r.extIdx[e.SlabID] = idx
 			info.newExt++
@@ -593,6 +761,7 @@ func (r *mpeRun) encElem(e *atree.VerifMapElem, level int, out *[]uint64, info *
 	if d := level + 1; d > info.depth {
 		info.depth = d
 	}
+	info.groups++
 	if e.Group != nil && len(e.Group.Elems) == 1 && e.Group.Elems[0].Kind == 0 {
 		r.viol("C12: collision group with one remaining element was not collapsed", fmt.Sprintf("kind %d at level %d", e.Kind, level))
 	}
@@ -602,12 +771,14 @@ func (r *mpeRun) encElem(e *atree.VerifMapElem, level int, out *[]uint64, info *
 	r.encElems(e.Group, level+1, out, info)
 }
 
-// dump takes the structural dump; ok=false if the hook failed.
-func (r *mpeRun) dump() (enc []uint64, info *mpeDumpInfo, ok bool) {
+// dump takes the structural dump of the history's map; ok=false if the hook failed.
+func (r *mpeRun) dump() (enc []uint64, info *mpeDumpInfo, ok bool) { return r.dumpOf(r.m) }
+
+func (r *mpeRun) dumpOf(m *atree.OrderedMap) (enc []uint64, info *mpeDumpInfo, ok bool) {
 	var d *atree.VerifMapElems
 	err, pan := mpeCall(func() error {
 		var e error
-		d, e = atree.VerifMapElements(r.m)
+		d, e = atree.VerifMapElements(m)
 		return e
 	})
 	if err != nil {
@@ -669,9 +840,14 @@ func (r *mpeRun) afterMutation(d0 uint64, keyed bool) (s []uint64, enc []uint64,
 	s = append(s, removed...)
 
 	// events
+	r.transition = info.groups != r.lastInfo.groups || info.nSL != r.lastInfo.nSL || info.depth != r.lastInfo.depth ||
+		len(info.ext) != len(r.lastInfo.ext)
 	if keyed {
 		before, hadB := r.lastInfo.kinds[d0]
 		after, hasA := info.kinds[d0]
+		if hadB && hasA && before != after {
+			r.transition = true
+		}
 		if hadB && hasA {
 			switch {
 			case before == 0 && after == 1:
@@ -752,13 +928,20 @@ func (r *mpeRun) delLive(k *mpeKey) {
 	delete(r.livePos, k.id)
 }
 
-// fanout: number of distinct level-1 digests among live keys sharing k's level-0 digest
+// fanout: number of distinct level-1 digests among live keys sharing k's level-0 digest (what the
+// group below the level-0 digest counts); with a one-level digester the group is the
+// insertion-ordered list, which counts its keys
 func (r *mpeRun) fanout(k *mpeKey) int {
 	seen := map[uint64]bool{}
+	n := 0
 	for _, x := range r.live {
 		if x.d[0] == k.d[0] {
 			seen[x.d[1]] = true
+			n++
 		}
+	}
+	if r.levels == 1 {
+		return n
 	}
 	return len(seen)
 }
@@ -770,7 +953,7 @@ func (r *mpeRun) expectedOrder() []*mpeEntry {
 	}
 	sort.Slice(out, func(i, j int) bool {
 		a, b := out[i], out[j]
-		for l := 0; l < mpeLevels; l++ {
+		for l := 0; l < r.levels; l++ {
 			if a.k.d[l] != b.k.d[l] {
 				return a.k.d[l] < b.k.d[l]
 			}
@@ -780,8 +963,9 @@ func (r *mpeRun) expectedOrder() []*mpeEntry {
 	return out
 }
 
-func mpeKeyOp(code uint64, k *mpeKey) []uint64 {
-	return []uint64{code, k.id, k.d[0], k.d[1], k.d[2], k.d[3]}
+// keyOp: an operation naming a key carries the key's digests for levels 0..levels-1
+func (r *mpeRun) keyOp(code uint64, k *mpeKey) []uint64 {
+	return append([]uint64{code, k.id}, k.d[:r.levels]...)
 }
 
 // ---------- operations ----------
@@ -796,7 +980,7 @@ func (r *mpeRun) doSet(k *mpeKey) {
 	}
 	r.rep.Op(name)
 	v, vid, vsz := r.newValue(k, avoid)
-	op := []uint64{1, k.id, k.ksz, vid, vsz, k.d[0], k.d[1], k.d[2], k.d[3]}
+	op := append([]uint64{1, k.id, k.ksz, vid, vsz}, k.d[:r.levels]...)
 
 	n := r.fanout(k)
 	wantRefused := !present && n >= 1 && uint64(n-1) >= r.limit
@@ -820,9 +1004,9 @@ func (r *mpeRun) doSet(k *mpeKey) {
 		r.rep.Event("refused")
 		r.sawRefused = true
 		if present {
-			r.viol("C12: update of an existing key was refused by the collision limit", fmt.Sprintf("key %d limit %d", k.id, r.limit))
+			r.viol("C12: update of an existing key was refused by the collision limit", fmt.Sprintf("key %d limit %s", k.id, r.limitText()))
 		} else if !wantRefused {
-			r.viol("C12: insert refused although the collision limit is not reached", fmt.Sprintf("key %d fanout %d limit %d", k.id, n, r.limit))
+			r.viol("C12: insert refused although the collision limit is not reached", fmt.Sprintf("key %d fanout %d limit %s", k.id, n, r.limitText()))
 		}
 		before := r.lastEnc
 		s, enc, ok := r.afterMutation(k.d[0], true)
@@ -843,7 +1027,7 @@ func (r *mpeRun) doSet(k *mpeKey) {
 		return
 	}
 	if wantRefused {
-		r.viol("C12: insert beyond the collision limit was accepted", fmt.Sprintf("key %d fanout %d limit %d", k.id, n, r.limit))
+		r.viol("C12: insert beyond the collision limit was accepted", fmt.Sprintf("key %d fanout %d limit %s", k.id, n, r.limitText()))
 	}
 	var ans []uint64
 	if prev == nil {
@@ -878,6 +1062,7 @@ func (r *mpeRun) doSet(k *mpeKey) {
 	}
 	r.emit(op, append(ans, s...))
 	r.verify(name)
+	r.durable()
 }
 
 func (r *mpeRun) doRemove(k *mpeKey) {
@@ -887,7 +1072,7 @@ func (r *mpeRun) doRemove(k *mpeKey) {
 		name = "remove_present"
 	}
 	r.rep.Op(name)
-	op := mpeKeyOp(4, k)
+	op := r.keyOp(4, k)
 	var ks, vs atree.Storable
 	err, pan := mpeCall(func() error {
 		var e error
@@ -937,6 +1122,7 @@ func (r *mpeRun) doRemove(k *mpeKey) {
 	}
 	r.emit(op, append([]uint64{0, kid, ksz, vid, vsz}, s...))
 	r.verify(name)
+	r.durable()
 }
 
 func (r *mpeRun) doGet(k *mpeKey) {
@@ -946,7 +1132,7 @@ func (r *mpeRun) doGet(k *mpeKey) {
 		name = "get_present"
 	}
 	r.rep.Op(name)
-	op := mpeKeyOp(2, k)
+	op := r.keyOp(2, k)
 	var v atree.Value
 	err, pan := mpeCall(func() error {
 		var e error
@@ -985,7 +1171,7 @@ func (r *mpeRun) doHas(k *mpeKey) {
 		name = "has_present"
 	}
 	r.rep.Op(name)
-	op := mpeKeyOp(3, k)
+	op := r.keyOp(3, k)
 	var b bool
 	err, pan := mpeCall(func() error {
 		var e error
@@ -1118,6 +1304,8 @@ func (r *mpeRun) doPop() {
 	}
 	r.emit([]uint64{8}, append(obs, s...))
 	r.verify("pop_iterate")
+	r.transition = true
+	r.durable()
 }
 
 // ---------- key choice ----------
@@ -1229,16 +1417,253 @@ func (r *mpeRun) randomOp(phase int) {
 	}
 }
 
+// ---------- durability: commit, reopen from the ledger, compare with the shadow ----------
+
+func (r *mpeRun) limitText() string {
+	if r.defLimit {
+		return fmt.Sprintf("%d (the documented default; the limit was never configured, the library runs with its own default)", r.limit)
+	}
+	return fmt.Sprint(r.limit)
+}
+
+// commit writes the write set to the ledger.  FastCommit encodes in worker goroutines, where a
+// panic cannot be recovered, so every slab of the write set is encoded here first.
+func (r *mpeRun) commit() bool {
+	r.rep.Event("commit")
+	r.nCommit++
+	err, pan := mpeCall(func() error {
+		deltas, _ := atree.VerifStorageKeys(r.st)
+		for id, live := range deltas {
+			if !live {
+				continue
+			}
+			if slab, ok := atree.VerifStorageDeltaSlab(r.st, id); ok && slab != nil {
+				if _, e := atree.EncodeSlab(slab, encMode); e != nil {
+					return fmt.Errorf("slab %s: %w", id, e)
+				}
+			}
+		}
+		return nil
+	})
+	if err != nil {
+		r.viol("C02: a slab of the map cannot be encoded, the history cannot be committed", fmt.Sprintf("levels=%d mode=%s panic=%v %v", r.levels, r.mode, pan, err))
+		r.dead = true
+		return false
+	}
+	kind := r.rng.Intn(2)
+	workers := 1 + r.rng.Intn(3)
+	err, pan = mpeCall(func() error {
+		if kind == 0 {
+			return r.st.FastCommit(workers)
+		}
+		return r.st.NondeterministicFastCommit(workers)
+	})
+	if err != nil {
+		r.viol("C02: commit failed", fmt.Sprintf("levels=%d mode=%s kind=%d panic=%v %v", r.levels, r.mode, kind, pan, err))
+		r.dead = true
+		return false
+	}
+	if d := r.st.Deltas(); d != 0 {
+		r.viol("C02: write set is not empty after a successful commit", fmt.Sprint(d))
+	}
+	return true
+}
+
+// reopenCompare loads the map by its root identifier into a brand-new storage over the ledger
+// bytes and compares it with the shadow dictionary (count, canonical order, values, absent keys)
+// and with the last structural dump of the live map.  adopt: the history continues on the
+// reopened map (the old wrapper and storage are dropped: one wrapper per container).
+func (r *mpeRun) reopenCompare(adopt bool) {
+	r.rep.Event("reopen_compare")
+	r.nReopen++
+	// dictionary semantics of a map holding collision groups or lists is C12's claim, otherwise C02's
+	pid := "C02"
+	if r.lastInfo != nil && (r.lastInfo.groups > 0 || r.lastInfo.nSL > 0) {
+		pid = "C12"
+	}
+	nv := len(r.rep.Violations)
+	defer func() {
+		if len(r.rep.Violations) > nv {
+			r.durq = 0 // one report per history: no further commits and comparisons
+			r.rep.Event("hist_reopen_mismatch")
+		}
+	}()
+	base := r.base
+	if !adopt {
+		base = r.base.Clone()
+	}
+	st2 := newStorage(base)
+	b2 := &mpeVBuilder{table: r.b.table, levels: r.b.levels}
+	var m2 *atree.OrderedMap
+	err, pan := mpeCall(func() error {
+		var e error
+		m2, e = atree.NewMapWithRootID(st2, r.m.SlabID(), b2)
+		return e
+	})
+	if err != nil {
+		r.viol(pid+": map cannot be reopened by its root identifier after a commit", fmt.Sprintf("levels=%d mode=%s panic=%v %v", r.levels, r.mode, pan, err))
+		r.dead = adopt
+		return
+	}
+	if m2.Count() != uint64(len(r.shadow)) {
+		r.viol(pid+": reopened map has a different count than the dictionary", fmt.Sprintf("%d vs %d", m2.Count(), len(r.shadow)))
+	}
+	want := r.expectedOrder()
+	j, bad := 0, false
+	err, pan = mpeCall(func() error {
+		return m2.IterateReadOnly(func(k, v atree.Value) (bool, error) {
+			kid, _, _ := mpeIdent(k)
+			vid, vsz, _ := mpeIdent(v)
+			if j >= len(want) {
+				if !bad {
+					r.viol(pid+": reopened map yields more pairs than the dictionary holds (a removed key is back)", fmt.Sprintf("extra key %d after %d pairs", kid, j))
+				}
+				bad = true
+				return false, nil
+			}
+			if kid != want[j].k.id || vid != want[j].vid || vsz != want[j].vsz {
+				if !bad {
+					r.viol(pid+": reopened map content differs from the dictionary", fmt.Sprintf("pos %d: (%d,%d,%d) want (%d,%d,%d)", j, kid, vid, vsz, want[j].k.id, want[j].vid, want[j].vsz))
+				}
+				bad = true
+				return false, nil
+			}
+			j++
+			return true, nil
+		})
+	})
+	if err != nil {
+		r.viol(pid+": iterating the reopened map failed", fmt.Sprintf("levels=%d panic=%v %v", r.levels, pan, err))
+		r.dead = adopt
+		return
+	}
+	if !bad && j < len(want) {
+		r.viol(pid+": reopened map yields fewer pairs than the dictionary holds", fmt.Sprintf("%d of %d", j, len(want)))
+		bad = true
+	}
+	// point lookups: a few live keys, a few absent ones (removed pool keys, probes)
+	for t := 0; t < 4 && len(r.live) > 0 && !bad; t++ {
+		k := r.live[r.rng.Intn(len(r.live))]
+		cur := r.shadow[k.id]
+		var v atree.Value
+		err, pan = mpeCall(func() error {
+			var e error
+			v, e = m2.Get(testutils.CompareValue, testutils.GetHashInput, k.val)
+			return e
+		})
+		if err != nil {
+			r.viol(pid+": reopened map does not find a key of the dictionary", fmt.Sprintf("key %d panic=%v %v", k.id, pan, err))
+			bad = true
+		} else if vid, vsz, _ := mpeIdent(v); vid != cur.vid || vsz != cur.vsz {
+			r.viol(pid+": reopened map returns the wrong value", fmt.Sprintf("key %d got (%d,%d) want (%d,%d)", k.id, vid, vsz, cur.vid, cur.vsz))
+			bad = true
+		}
+	}
+	for t := 0; t < 4 && !bad; t++ {
+		k := r.pickAbsent()
+		if k == nil {
+			break
+		}
+		var has bool
+		err, pan = mpeCall(func() error {
+			var e error
+			has, e = m2.Has(testutils.CompareValue, testutils.GetHashInput, k.val)
+			return e
+		})
+		if err != nil {
+			r.viol(pid+": membership test on the reopened map failed", fmt.Sprintf("key %d panic=%v %v", k.id, pan, err))
+			bad = true
+		} else if has {
+			r.viol(pid+": reopened map reports an absent key as present", fmt.Sprintf("key %d", k.id))
+			bad = true
+		}
+	}
+	// structure: the reopened map is the live map (groups, levels, cached sizes, external slabs)
+	if !bad {
+		r.roExt = true
+		enc2, _, ok := r.dumpOf(m2)
+		r.roExt = false
+		if !ok {
+			r.dead = false // the live map is intact; only the reopened copy could not be walked
+			bad = true
+		} else if !mpeSameEnc(enc2, r.lastEnc) {
+			r.viol("C12: reopened map has a different element structure than the live map (some group, level, cached size or external slab did not survive the ledger)", "")
+			bad = true
+		}
+	}
+	if !bad {
+		err, pan = mpeCall(func() error {
+			return atree.VerifyMap(m2, r.addr, r.ti, testutils.CompareTypeInfo, testutils.GetHashInput, true)
+		})
+		if err != nil {
+			r.viol("C12: VerifyMap failed on the reopened map", fmt.Sprintf("panic=%v %v", pan, err))
+			bad = true
+		}
+	}
+	if adopt {
+		if bad {
+			r.dead = true
+			return
+		}
+		r.rep.Event("continue_on_reopened_map")
+		r.nAdopt++
+		r.st, r.m, r.b = st2, m2, b2
+	}
+}
+
+// durable is called after every successful mutation: in a history with commit density durq the
+// mutation is committed with that chance (at least 60% right after a change of the group
+// structure), and the ledger is then reopened and compared with chance 60%.
+func (r *mpeRun) durable() {
+	if r.dead || r.durq == 0 {
+		return
+	}
+	p := r.durq
+	if r.transition && p < 60 {
+		p = 60
+	}
+	if !r.rng.Chance(p) {
+		return
+	}
+	if r.transition {
+		r.rep.Event("commit_right_after_group_transition")
+	}
+	if !r.commit() {
+		return
+	}
+	if r.rng.Chance(60) {
+		r.reopenCompare(r.rng.Chance(20))
+	}
+}
+
 // ---------- one history ----------
 
 func (r *mpeRun) params() {
 	rng := r.rng
+	lib := mpeReadLibDefaultLimit()
 	r.T = []uint32{256, 512, 1024}[rng.Pick(40, 30, 30)]
+	r.levels = 1 + rng.Pick(7, 8, 8, 38, 6, 6, 7, 20)
 	r.limit = []uint64{0, 1, 2, 3, 255}[rng.Pick(8, 14, 14, 14, 50)]
+	r.defLimit = r.limit == mpeDocumentedDefaultLimit && rng.Bool()
+	r.profile = rng.Pick(30, 40, 30)
+	r.durq = []int{0, 4, 30, 100}[rng.Pick(15, 30, 30, 25)]
+	if r.wide {
+		// two of three wide histories leave the limit at the library's default
+		r.limit, r.defLimit = mpeDocumentedDefaultLimit, true
+		if (r.hist/mpeWideEvery)%3 == 2 {
+			r.limit, r.defLimit = uint64(16+rng.Intn(240)), false
+		}
+		r.profile = 0
+		r.durq = []int{0, 4, 30, 100}[rng.Pick(20, 45, 25, 10)]
+	}
 	set := atree.VerifSetThreshold(r.T)
 	r.maxInline, r.maxKey = uint64(set[4]), uint64(set[5])
-	atree.VerifSetMaxCollisionLimitPerDigest(uint32(r.limit))
-	r.profile = rng.Pick(30, 40, 30)
+	if r.defLimit {
+		// not configured: exactly the value the library started with is in force
+		atree.VerifSetMaxCollisionLimitPerDigest(lib)
+	} else {
+		atree.VerifSetMaxCollisionLimitPerDigest(uint32(r.limit))
+	}
 }
 
 func (r *mpeRun) setup() bool {
@@ -1247,13 +1672,20 @@ func (r *mpeRun) setup() bool {
 	if rng.Chance(30) {
 		nk = 26 + rng.Intn(35)
 	}
+	if r.wide {
+		nk = int(r.limit) + 5 + rng.Intn(12) // limit+1 distinct level-1 digests are admitted
+	}
 	used := map[uint64]bool{}
 	for i := 0; i < nk; i++ {
 		r.pool = append(r.pool, r.newKey(used))
 	}
-	r.genDigests()
+	if r.wide {
+		r.genWideDigests()
+	} else {
+		r.genDigests()
+	}
 	r.genProbes(used)
-	r.b = &mpeBuilder{table: map[uint64][mpeLevels]uint64{}}
+	r.b = &mpeVBuilder{table: map[uint64][mpeMaxLevels]uint64{}, levels: uint(r.levels)}
 	for _, k := range r.pool {
 		r.b.table[k.id] = k.d
 	}
@@ -1285,6 +1717,20 @@ func (r *mpeRun) setup() bool {
 	return true
 }
 
+func (r *mpeRun) checkpoint() {
+	r.doCount()
+	r.doIterate(false)
+	if !r.dead {
+		r.doIterate(true)
+	}
+	r.health("at a checkpoint")
+	if r.durq > 0 && r.rng.Chance(35) && !r.dead {
+		if r.commit() && r.rng.Chance(50) {
+			r.reopenCompare(r.rng.Chance(25))
+		}
+	}
+}
+
 func (r *mpeRun) run(maxSteps int) {
 	rng := r.rng
 	hi := min(600, maxSteps)
@@ -1293,9 +1739,37 @@ func (r *mpeRun) run(maxSteps int) {
 		steps = 100 + rng.Intn(hi-100+1)
 	}
 	r.params()
-	r.tr.Hist(r.tag, uint64(r.T), r.maxInline, r.limit, mpeLevels)
+	r.tr.Hist(r.tag, uint64(r.T), r.maxInline, r.limit, uint64(r.levels))
 	if !r.setup() {
 		return
+	}
+	nextCheck := 20 + rng.Intn(10)
+	if r.wide {
+		// fill the hot digest up to and beyond the limit (the pool is in random order), a few other
+		// operations in between; then churn around the boundary
+		for pass := 0; pass < 2; pass++ { // second pass: the keys removed or refused meanwhile
+			for _, k := range r.pool {
+				if _, stored := r.shadow[k.id]; r.dead || (pass == 1 && stored) {
+					continue
+				}
+				r.doSet(k)
+				if rng.Chance(6) && !r.dead {
+					r.randomOp(1)
+				}
+				if r.step >= nextCheck && !r.dead {
+					nextCheck = r.step + 50 + rng.Intn(30)
+					r.checkpoint()
+				}
+			}
+		}
+		churn := 50 + rng.Intn(60)
+		for c := 0; c < churn && !r.dead; c++ {
+			r.randomOp([]int{1, 1, 2, 0}[(c/12)%4])
+			if r.step >= nextCheck && !r.dead {
+				nextCheck = r.step + 40 + rng.Intn(20)
+				r.checkpoint()
+			}
+		}
 	}
 	// phase plan: grow, churn, shrink, regrow, churn
 	cut := []int{steps * 33 / 100, steps * 53 / 100, steps * 70 / 100, steps * 90 / 100}
@@ -1313,38 +1787,23 @@ func (r *mpeRun) run(maxSteps int) {
 			return 1
 		}
 	}
-	nextCheck := 20 + rng.Intn(10)
-	for r.step < steps && !r.dead {
+	for !r.wide && r.step < steps && !r.dead {
 		r.randomOp(phaseOf(r.step))
 		if r.dead {
 			break
 		}
 		if r.step >= nextCheck {
 			nextCheck = r.step + 18 + rng.Intn(10)
-			r.doCount()
-			r.doIterate(false)
-			if !r.dead {
-				r.doIterate(true)
-			}
-			r.health("at a checkpoint")
-			if rng.Chance(35) && !r.dead {
-				err, pan := mpeCall(func() error {
-					if rng.Bool() {
-						return r.st.FastCommit(1 + rng.Intn(3))
-					}
-					return r.st.NondeterministicFastCommit(1 + rng.Intn(3))
-				})
-				if err != nil {
-					r.viol("C02: commit failed", fmt.Sprintf("panic=%v %v", pan, err))
-				}
-				r.rep.Event("commit")
-			}
+			r.checkpoint()
 		}
 	}
 	if !r.dead {
 		r.health("before PopIterate")
 		r.doCount()
 		r.doIterate(false)
+	}
+	if !r.dead && r.durq > 0 && r.commit() {
+		r.reopenCompare(rng.Chance(30))
 	}
 	if !r.dead {
 		r.doPop()
@@ -1367,6 +1826,9 @@ func (r *mpeRun) run(maxSteps int) {
 		r.doIterate(true)
 		r.health("at the end")
 	}
+	if !r.dead && r.durq > 0 && r.commit() {
+		r.reopenCompare(false)
+	}
 }
 
 func (r *mpeRun) summarize() {
@@ -1377,35 +1839,57 @@ func (r *mpeRun) summarize() {
 		}
 		return "0"
 	}
-	fp := fmt.Sprintf("T%d lim%d %s p%d in%s ex%s ci%s ce%s ls%s rf%s d2%s ms%s", r.T, r.limit, r.mode, r.profile,
+	lim := fmt.Sprint(r.limit)
+	if r.defLimit {
+		lim = "default"
+	}
+	fp := fmt.Sprintf("T%d L%d lim%s %s p%d q%d in%s ex%s ci%s ce%s ls%s rf%s d2%s ms%s", r.T, r.levels, lim, r.mode, r.profile, r.durq,
 		flag(r.sawInline, "inline_group"), flag(r.sawExt, "external_spill"), flag(r.sawCollIn, "collapse_inline"),
 		flag(r.sawCollExt, "collapse_external"), flag(r.sawList, "list_mode"), flag(r.sawRefused, "refusal"),
 		flag(r.sawDepth2, "depth2"), flag(r.sawMulti, "multi_slab"))
 	r.rep.Event("mode_" + r.mode)
 	r.rep.Event(fmt.Sprintf("T_%d", r.T))
-	r.rep.Event(fmt.Sprintf("limit_%d", r.limit))
+	r.rep.Event(fmt.Sprintf("levels_%d", r.levels))
+	r.rep.Event("limit_" + lim)
+	r.rep.Event(fmt.Sprintf("commit_density_%d", r.durq))
+	if r.levels == mpeMaxLevels && r.sawList && r.nCommit > 0 {
+		r.rep.Event("hist_committed_a_full_depth_list_under_8_levels")
+	}
+	if r.wide && r.sawRefused {
+		r.rep.Event("hist_wide_reached_the_limit")
+	}
 	if r.dead {
 		r.rep.Event("hist_aborted")
 	}
 	if r.sawInline || r.sawExt || r.sawList || r.sawRefused {
 		r.rep.Distinct(fp)
 	}
-	r.rep.Sample(fmt.Sprintf("history %s: %d steps, %d keys + %d probes, %s", r.tag, r.step, len(r.pool), len(r.probes), fp))
+	r.rep.Sample(fmt.Sprintf("history %s: %d steps, %d keys + %d probes, %d commits, %d reopen-compares (%d continued on the reopened map), %s", r.tag, r.step, len(r.pool), len(r.probes), r.nCommit, r.nReopen, r.nAdopt, fp))
 }
 
+// every mpeWideEvery-th history (from history mpeWideEvery/2 on, so that the first histories,
+// which are also evaluated inside Coq, stay small) is a wide one
+const mpeWideEvery = 128
+
 func cmdMapElems(a Args) {
+	lib := mpeReadLibDefaultLimit() // before anything configures the limit
 	tr := NewTrace(a.Out + "/trace.txt")
 	rep := NewReport(a.Prop, a.Seed)
-	rep.Rule = "one OrderedMap per history under a table digester (4 levels; list / collide-up-to-level-j / small alphabets / no collision / mixed; " +
-		"digest values include 0 and values >= 2^63), T in {256,512,1024}, collision limit in {0,1,2,3,255}; random Set/Get/Has/Remove/Count/" +
-		"IterateReadOnly/Iterate, one PopIterate; oracles: shadow dictionary (previous value, got value, has, removed pair, count, key-not-found), " +
-		"refusal <=> key absent and #distinct level-1 digests among live keys with the same level-0 digest >= limit+1 (refusal leaves count, structure and " +
-		"write set unchanged), iteration order = sort by (d0,d1,d2,d3,insertion seq) and PopIterate its reverse, groups collapsed/spilled canonically, " +
+	rep.Rule = "one OrderedMap per history under a table digester with 1..8 levels (8 = maxDigestLevel; list / collide-up-to-level-j / classes colliding on EVERY level with " +
+		"keys leaving at random levels / small alphabets / no collision / mixed; digest values include 0 and values >= 2^63), T in {256,512,1024}, collision limit in " +
+		"{0,1,2,3,255, not configured = library default}; random Set/Get/Has/Remove/Count/IterateReadOnly/Iterate, one PopIterate; per history a commit density " +
+		"(never / 4% / 30% / 100% of the mutations, at least 60% right after a change of the group structure: inline group <-> external group, collapse, nested group, list) " +
+		"with commits of both kinds, after 60% of the commits the map is reopened from the ledger bytes in a brand-new storage and compared with the shadow " +
+		"dictionary (count, order, values, absent keys), with the live map's structural dump and by VerifyMap, in 20% of those the history continues on the reopened map; " +
+		"every 128th history (64, 192, ...) is WIDE: limit+5..16 keys, limit+4 of them under one level-0 digest with pairwise distinct level-1 digests, limit not configured (two of three) or 16..255, about limit+100 operations whatever -steps says; " +
+		"oracles: shadow dictionary (previous value, got value, has, removed pair, count, key-not-found), " +
+		"refusal <=> key absent and #distinct level-1 digests among live keys with the same level-0 digest >= limit+1, where an unconfigured limit is the documented default 255 " +
+		"(refusal leaves count, structure and write set unchanged), iteration order = sort by (d0..dL-1,insertion seq) and PopIterate its reverse, groups collapsed/spilled canonically, " +
 		"VerifyMap after every mutation, CheckStorageHealth(1 root) every ~20 ops; non-trivial = history with a collision group, list mode or refusal " +
-		"(distinct by T, limit, digest mode, value profile and the structural events seen)"
+		"(distinct by T, levels, limit, digest mode, value profile, commit density and the structural events seen)"
 	defer func() {
 		atree.VerifSetThreshold(1024)
-		atree.VerifSetMaxCollisionLimitPerDigest(255)
+		atree.VerifSetMaxCollisionLimitPerDigest(lib)
 	}()
 	root := NewRng(a.Seed)
 	for h := 0; h < a.N; h++ {
@@ -1414,7 +1898,7 @@ func cmdMapElems(a Args) {
 		if !want(tag) {
 			continue
 		}
-		r := &mpeRun{rep: rep, tr: tr, hist: h, tag: tag, rng: hr}
+		r := &mpeRun{rep: rep, tr: tr, hist: h, tag: tag, rng: hr, wide: h%mpeWideEvery == mpeWideEvery/2}
 		func() {
 			defer func() {
 				if p := recover(); p != nil {
@@ -1422,7 +1906,7 @@ func cmdMapElems(a Args) {
 					r.dead = true
 				}
 				atree.VerifSetThreshold(1024)
-				atree.VerifSetMaxCollisionLimitPerDigest(255)
+				atree.VerifSetMaxCollisionLimitPerDigest(lib)
 			}()
 			r.run(a.Steps)
 		}()
